@@ -63,6 +63,8 @@ def main():
             return ("C12", "C13")
         if "_slot_before_" in name:
             return ("C08",)
+        if name in ("Combiner_first_ingredient_edge", "Combiner_recipe_index"):
+            return ("C16",)
         return ()
     for k, v in tr.get("fragments", {}).items():
         if v.get("status") != "ok" and pid in frag_props(k):
@@ -70,7 +72,7 @@ def main():
     for target, props in (("theories/Edges/TieB.vo", ("C01", "C02", "C04", "C09", "C11", "C15")),
                           ("theories/Nodes/TieAcc.vo", ("C15", "C17")),
                           ("theories/Edges/TieBelt.vo", ("C12", "C13")),
-                          ("theories/Nodes/TieNodes.vo", ("C08",))):
+                          ("theories/Nodes/TieNodes.vo", ("C08", "C16"))):
         if pid in props:
             okt, logt = lib.build_coq_target(target)
             if not okt:
